@@ -1144,12 +1144,12 @@ func (f *Facts) json() []byte {
 		}
 		for _, fld := range f.TypeFields[ct[1]] {
 			if !have[fld] && !dead[fld] {
-				fails = append(fails, failed{"Ctor:" + ct[0], "C07 C08", fmt.Sprintf("a %s whose field %s (like every other field) was set to a sentinel by its previous user is returned to the pool with the library's own Free and handed out again by %s: %s still holds the sentinel", ct[1], fld, ct[0], fld)})
+				fails = append(fails, failed{"Ctor:" + ct[0], "C07 C08 C01 C02 C05 C09 C10 C11 C12 C13", fmt.Sprintf("a %s whose field %s (like every other field) was set to a sentinel by its previous user is returned to the pool with the library's own Free and handed out again by %s: %s still holds the sentinel", ct[1], fld, ct[0], fld)})
 			}
 		}
 	}
 	if len(f.Ctor["NewPathBuilder"]) == 0 {
-		fails = append(fails, failed{"Ctor:NewPathBuilder", "C07 C08 C10", "a PathBuilder freed while holding the segments [x, [3]] is handed out again by NewPathBuilder: it does not render the empty path (or Push(k) does not render k)"})
+		fails = append(fails, failed{"Ctor:NewPathBuilder", "C07 C08 C10 C01 C02 C05 C09 C11 C12 C13", "a PathBuilder freed while holding the segments [x, [3]] is handed out again by NewPathBuilder: it does not render the empty path (or Push(k) does not render k)"})
 	}
 	if !f.CollectMapSkipsFirst {
 		fails = append(fails, failed{"CollectMap", "C07 C08", "Struct{a: String().Required(), b: String().Required()}.Parse(map{}) then z.Issues.CollectMap(result): the first issue (filed under its path and under $first) is put into the pool twice, so two later acquisitions receive the same object"})
